@@ -47,6 +47,7 @@ func (c06) Cases(tier string, seed int64, kf *KnownFindings) []Case {
 	cs = append(cs, Case{Kind: "lit", S: "badutf8", Count: 4, Sub: -1})
 	cs = append(cs, Case{Kind: "lit", S: "untyped-resent", Count: 4, Sub: -1})
 	cs = append(cs, Case{Kind: "lit", S: "untyped-resent-reverse", Count: 4, Sub: -1})
+	cs = append(cs, Case{Kind: "lit", S: "named-map-with-containers", Count: 4, Sub: -1})
 	if tier == "thorough" {
 		// all histories of length <= 3 over a 12-value alphabet: 12 + 144 + 1728
 		for a := 0; a < 12; a++ {
@@ -147,6 +148,12 @@ func (c06) Run(c Case, env *Env) Result {
 				hist = []interface{}{m, "between", m, nm2, nm2}
 			case "list-resent":
 				hist = []interface{}{l, l, []interface{}{l, m}, m}
+			case "named-map-with-containers":
+				// a registered named map at a generic position whose values are first seen inside it,
+				// then references to one of those values and to the map itself
+				in1, in2 := &zoo.Inner{A: 1, S: "one"}, &zoo.Inner{A: 2, S: "two"}
+				npm := zoo.NamedPtrMap{"k": in1, "j": in2}
+				hist = []interface{}{"first", npm, in1, npm, &zoo.WithInner{P: in2, N: 3}, []interface{}{in1, npm}}
 			case "badutf8":
 				// strings that end in a cut-off lead octet, each followed by a value whose first octets
 				// could be taken for continuation octets (x80..xbf are the one-octet ints -16..47)
